@@ -19,6 +19,7 @@ import (
 	"os/signal"
 	"path/filepath"
 	"sort"
+	"strings"
 	"sync"
 	"syscall"
 	"unsafe"
@@ -272,7 +273,7 @@ type fileEv struct {
 // fileChild is the child process: the real file.Persist.Store under RLIMIT_FSIZE.
 func fileChild(dir, name string, size int, seed int64, limit int, mode string) {
 	payload := filePayload(size, seed)
-	if mode == "ioerr" {
+	if mode == "ioerr" || mode == "treeioerr" || mode == "treeioerr-cache" {
 		signal.Ignore(syscall.SIGXFSZ)
 	} else {
 		// the Go runtime turns SIGXFSZ into a plain EFBIG error; a crash needs the kernel's default action
@@ -288,6 +289,10 @@ func fileChild(dir, name string, size int, seed int64, limit int, mode string) {
 			os.Exit(9)
 		}
 	}
+	if strings.HasPrefix(mode, "tree") {
+		fileTreeChild(dir, size, seed, limit, mode)
+		return
+	}
 	lim := syscall.Rlimit{Cur: uint64(limit), Max: uint64(limit)}
 	if err := syscall.Setrlimit(syscall.RLIMIT_FSIZE, &lim); err != nil {
 		os.Exit(9)
@@ -297,6 +302,195 @@ func fileChild(dir, name string, size int, seed int64, limit int, mode string) {
 		os.Exit(3)
 	}
 	os.Exit(0)
+}
+
+// ---- the same at the level of a tree: MakeRoot over the file store, cut short; retried in the same process (I/O error) or
+// after a restart (crash)
+
+func buildFileTree(dir string, n int, seed int64, withCache bool) (*mast.Mast, error) {
+	rng := rand.New(rand.NewSource(seed))
+	cfg := &mast.RemoteConfig{KeysLike: "", ValuesLike: "", StoreImmutablePartsWith: filep.NewPersistForPath(dir)}
+	if withCache {
+		cfg.NodeCache = mast.NewNodeCache(1000)
+	}
+	m, err := mast.NewRoot(&mast.CreateRemoteOptions{BranchFactor: 4}).LoadMast(ctx, cfg)
+	if err != nil {
+		return nil, err
+	}
+	for i := 0; i < n; i++ {
+		k := fmt.Sprintf("key-%04d", rng.Intn(10000))
+		v := strings.Repeat("x", 5+rng.Intn(120))
+		if err := m.Insert(ctx, k, v); err != nil {
+			return nil, err
+		}
+	}
+	return m, nil
+}
+
+type fileTreeOut struct {
+	Res1 string     `json:"res1"`
+	Res2 string     `json:"res2"`
+	Root *mast.Root `json:"root"`
+}
+
+func fileTreeChild(dir string, n int, seed int64, limit int, mode string) {
+	m, err := buildFileTree(dir, n, seed, mode == "treeioerr-cache" || mode == "treecrash-cache")
+	if err != nil {
+		os.Exit(9)
+	}
+	var lim syscall.Rlimit
+	syscall.Getrlimit(syscall.RLIMIT_FSIZE, &lim)
+	soft := lim
+	soft.Cur = uint64(limit)
+	if err := syscall.Setrlimit(syscall.RLIMIT_FSIZE, &soft); err != nil {
+		os.Exit(9)
+	}
+	o := fileTreeOut{}
+	root, err := m.MakeRoot(ctx)
+	o.Res1 = "ok"
+	if err != nil {
+		o.Res1 = "err"
+	}
+	// the condition goes away; the caller tries again
+	syscall.Setrlimit(syscall.RLIMIT_FSIZE, &lim)
+	root2, err := m.MakeRoot(ctx)
+	o.Res2 = "ok"
+	if err != nil {
+		o.Res2 = "err"
+	} else {
+		root = root2
+	}
+	o.Root = root
+	json.NewEncoder(os.Stdout).Encode(o)
+	os.Exit(0)
+}
+
+type fileTreeEv struct {
+	Op       string `json:"op"`
+	ID       int    `json:"id"`
+	N        int    `json:"n"`
+	Limit    int    `json:"limit"`
+	Mode     string `json:"mode"`
+	Child    string `json:"child"`
+	Res1     string `json:"res1"`
+	Res2     string `json:"res2"`
+	Nodes    int    `json:"nodes"`    // nodes of the complete tree
+	MaxNode  int    `json:"maxnode"`  // bytes of its largest node
+	Missing  int    `json:"missing"`  // of the root the child reported: reachable names that do not load
+	Corrupt  int    `json:"corrupt"`  // ... or load to bytes that are not the node
+	Partial  int    `json:"partial"`  // files left under a node's name whose contents are not that node
+	Restore  string `json:"restore"`  // after restart: the same tree persisted again
+	SameRoot bool   `json:"sameroot"` // ... gives the root of the complete tree
+	Missing2 int    `json:"missing2"`
+	Corrupt2 int    `json:"corrupt2"`
+	Msg      string `json:"msg"`
+}
+
+// walkFileTree loads everything reachable from a root name through the file store and checks each node against its name.
+func walkFileTree(dir string, top string) (nodes, maxNode, missing, corrupt int) {
+	p := filep.NewPersistForPath(dir)
+	seen := map[string]bool{}
+	var walk func(name string)
+	walk = func(name string) {
+		if name == "" || seen[name] {
+			return
+		}
+		seen[name] = true
+		b, err := p.Load(ctx, name)
+		if err != nil {
+			missing++
+			return
+		}
+		if nodeName(b) != name {
+			corrupt++
+			return
+		}
+		nodes++
+		if len(b) > maxNode {
+			maxNode = len(b)
+		}
+		rn, err := decodeNode("bin", b)
+		if err != nil {
+			corrupt++
+			return
+		}
+		for _, l := range rn.Links {
+			walk(l)
+		}
+	}
+	walk(top)
+	return
+}
+
+func fileTreeRuns(seed int64, n int, scratch string, self string, out *json.Encoder) {
+	rng := rand.New(rand.NewSource(seed ^ 0x7ee))
+	for id := 1; id <= n; id++ {
+		nent := 5 + rng.Intn(60)
+		tseed := rng.Int63()
+		// the complete tree, for reference
+		refdir := filepath.Join(scratch, fmt.Sprintf("ftref-%d", id))
+		os.MkdirAll(refdir, 0755)
+		rm, err := buildFileTree(refdir, nent, tseed, false)
+		if err != nil {
+			panic(err)
+		}
+		refRoot, err := rm.MakeRoot(ctx)
+		if err != nil {
+			panic(err)
+		}
+		nodes, maxNode, _, _ := walkFileTree(refdir, linkOf(refRoot))
+		os.RemoveAll(refdir)
+		for mi, mode := range []string{"treeioerr", "treeioerr-cache", "treecrash", "treecrash-cache"} {
+			limit := rng.Intn(maxNode + 2)
+			if rng.Intn(4) == 0 {
+				limit = []int{0, 1, maxNode - 1, maxNode}[rng.Intn(4)]
+			}
+			dir := filepath.Join(scratch, fmt.Sprintf("ft-%d-%s", id, mode))
+			os.MkdirAll(dir, 0755)
+			ev := fileTreeEv{Op: "ftree", ID: 5000000 + id*4 + mi, N: nent, Limit: limit, Mode: mode, Nodes: nodes, MaxNode: maxNode}
+			cmd := exec.Command(self, "filechild", "-dir", dir, "-size", fmt.Sprint(nent), "-pseed", fmt.Sprint(tseed), "-limit", fmt.Sprint(limit), "-mode", mode)
+			var stdout bytes.Buffer
+			cmd.Stdout = &stdout
+			err := cmd.Run()
+			var o fileTreeOut
+			switch {
+			case err == nil && json.Unmarshal(stdout.Bytes(), &o) == nil:
+				ev.Child, ev.Res1, ev.Res2 = "ok", o.Res1, o.Res2
+			case cmd.ProcessState != nil && cmd.ProcessState.ExitCode() == -1:
+				ev.Child = "killed"
+			default:
+				ev.Child = "broken"
+				ev.Msg = fmt.Sprint(err)
+			}
+			if ev.Child == "ok" && (o.Res1 == "ok" || o.Res2 == "ok") && o.Root != nil {
+				_, _, ev.Missing, ev.Corrupt = walkFileTree(dir, linkOf(o.Root))
+			}
+			if ents, err := os.ReadDir(dir); err == nil {
+				p := filep.NewPersistForPath(dir)
+				for _, e := range ents {
+					if b, err := p.Load(ctx, e.Name()); err == nil && len(e.Name()) == 43 && nodeName(b) != e.Name() {
+						ev.Partial++
+					}
+				}
+			}
+			// restart: a new process (here: new tree object, new cache) persists the same tree into the same directory
+			ev.Restore, _ = guard(func() error {
+				m2, err := buildFileTree(dir, nent, tseed, strings.HasSuffix(mode, "-cache"))
+				if err != nil {
+					return err
+				}
+				r2, err := m2.MakeRoot(ctx)
+				if err != nil {
+					return err
+				}
+				ev.SameRoot = linkOf(r2) == linkOf(refRoot)
+				_, _, ev.Missing2, ev.Corrupt2 = walkFileTree(dir, linkOf(r2))
+				return nil
+			})
+			out.Encode(ev)
+			os.RemoveAll(dir)
+		}
+	}
 }
 
 func filePayload(size int, seed int64) []byte {
